@@ -21,6 +21,24 @@ CHECKS = {
  "C08": ("order-type abstract interpretation with edge_removal=False (mutator and presence test)",
          "Accumulative valuation: '+' only for a new pair, never '-', first start immutable, snapshot key {t}, no exception, presence = first_start <= q <= largest id - for all integers.",
          "3.2, 4/C08"),
+ "C06": ("order-type abstract interpretation of time_slice into a recording result graph; endpoint-convention typing; purity",
+         "For every order type of the window against a canonical timeline: exactly one add_interaction(u, v, max(a,F), min(b,T)+1) per interval meeting the window, none otherwise, in order; ValueError iff t_to < t_from; default t_to = t_from; result class; node attributes; source untouched.",
+         "3.2, 4/C06"),
+ "C09": ("abstract interpretation of generate_snapshots; writer/reader/parser table agreement (shape rules with slots); parameter-flow analysis; decorator rule",
+         "Structural necessary conditions of the round trip: one row per (interaction, instant), unswapped, requested delimiter; modes / path index / encoding / delimiter flow; parser order of operations and column table; 4-column rows handed over as (t, vanishing e). Equality of graphs is NOT decided.",
+         "3.1, 3.6, 4/C09"),
+ "C10": ("abstract interpretation of generate_interactions and of the '+'/'-' replay dispatch over order types; table agreement; flow",
+         "One row per stream event; '+' replayed as a point add, '-' at s as a single add with e=s exactly when s is after the last end (all order types, both classes); parser/reader/writer tables agree. Equality of graphs/streams after a round trip is NOT decided beyond these clauses.",
+         "3.2, 3.6, 4/C10"),
+ "C11": ("abstract interpretation of node_link_data (canonical timelines) and of node_link_graph on symbolic data",
+         "Writer: directed flag, graph attrs, one entry per node with id, exactly one link per instant of presence, unswapped. Reader: class from the data (argument only as fallback), every node under its id with remaining attrs, one add_interaction per link, graph attrs. JSON equality itself is not decided.",
+         "3.1, 3.6, 4/C11"),
+ "C16": ("abstract interpretation of the conversions into a recording result graph; endpoint-convention typing; swallowed-rejection rule; purity",
+         "Every stored interval [a,b] is re-added as (a, b+1) with instants (never the stored list objects); all nodes added; graph/node attributes deep-copied; no write to the source; no try around add_interaction with a broad silent handler. The to_directed one-direction behaviour is a known finding. Reciprocal intersection: conventions of its operands only (quick).",
+         "3.1, 3.3 P6, 4/C16"),
+ "C18": ("shape rules with slots over the parsers and read_ids against the format tables; rank-map recogniser",
+         "Comment cut / strip / split / field-count filter / pop order / conversions-to-TypeError / keys remap order, identical discipline in read_ids, and compact_timeslot = enumerate(sorted(.)) rank map.",
+         "3.6, 4/C18"),
 }
 NA = [
  ("C13", "completeness of a data-dependent graph search: no shape-of-the-code necessary condition beyond what C12/C15 decide (DESIGN.md section 5)"),
